@@ -46,6 +46,7 @@ type netParams struct {
 	PreOldTag    bool        `json:"pre_old_tag,omitempty"`   // Pre: ... and a tag `oldtag` (not named by any refspec) on such a commit
 	Collide      bool        `json:"collide,omitempty"`       // fetch: two refspecs send a branch and a same-named tag (on another commit) to one destination
 	OtherTrack   bool        `json:"other_track,omitempty"`   // push: the local repository has remote-tracking refs of another remote below the pushed commits
+	FFConf       string      `json:"ff_conf,omitempty"`       // merge/pull: merge.fastForward in the configuration ("never" | "only"); FF "ff" is the flag that overrides it
 	PreMid       int         `json:"pre_mid,omitempty"`       // Pre: the earlier position of the branch (0 = pick a random ancestor)
 	Pre          string      `json:"pre,omitempty"`           // fetch: "shallow-fetch" = an earlier `fetch --depth 1` of an ancestor of the branch left shallow commits behind
 	ShallowLocal int         `json:"shallow_local,omitempty"` // push: this many non-tip commits of the pushed history lack their table locally (a shallow clone)
